@@ -9,6 +9,7 @@ import os
 
 import listing
 import pyg
+import reqs
 from leanio import dec_str
 from main import Result
 
@@ -214,12 +215,72 @@ def run(ctx):
         res.sample({"gophermap": checks[-1][0]["gophermap"], "dir": checks[-1][0]["dir"], "view": checks[-1][0]["view"]})
     finally:
         tree.close()
+    map_histories(ctx, res)
     res.degraded = list(pyg.degraded)
     return res
 
 
+def map_histories(ctx, res):
+    """One server process: a directory first seen without a gophermap gets one (and the reverse; and a gophermap that is
+    edited).  Each listing is what a server that has seen nothing before answers for the directory as it is now."""
+    tree = pyg.Tree()
+    try:
+        cfg = pyg.make_config(tree.root, **{"handlers.dir.DirHandler|cachetime": "0"})
+        maps = [None, b"iWelcome\n0First\tone.txt\n1Sub\tsub\n", b"0Only\tone.txt\n", None, b"iBack again\n0Two\t/late/two.txt\thost.example\t70\n"]
+        bases = ("late", "deep/er/late")
+        for base in bases:
+            tree.write(base + "/one.txt", b"1\n")
+            tree.write(base + "/two.txt", b"2\n")
+            tree.write(base + "/sub/x.txt", b"x\n")
+
+        def set_maps(gm):
+            for base in bases:
+                mp = tree.path(base + "/gophermap")
+                if gm is None:
+                    if os.path.exists(mp):
+                        os.unlink(mp)
+                else:
+                    tree.write(base + "/gophermap", gm)
+
+        def sweep(one_process):
+            got = {}
+            if one_process:
+                pyg.fresh_process_state()
+            for step, gm in enumerate(maps):
+                set_maps(gm)
+                for base in bases:
+                    if one_process:
+                        # the parent is listed too (a listing looks every child up)
+                        pyg.request(reqs.build("gopher", "/" + os.path.dirname(base)), cfg, reset=False)
+                    for view, gplus in listing.VIEWS:
+                        if not one_process:
+                            pyg.fresh_process_state()
+                        rows, r = listing.real_rows(view, gplus, cfg, "/" + base, reset=not one_process)
+                        got[(step, base, view, gplus)] = rows
+            return got
+        history, fresh = sweep(True), sweep(False)
+        for key, rows in history.items():
+            step, base, view, gplus = key
+            res.evaluations += 1
+            res.nontrivial.add(("map-history",) + key)
+            if rows != fresh[key]:
+                res.violation("C09:map-history:" + ("gained" if maps[step] is not None else "lost"),
+                              "a directory is not rendered from the gophermap it has now (one server process, the gophermap came or went)",
+                              {"dir": base, "step": step, "gophermap_now": maps[step], "view": view, "gplus": gplus},
+                              observed=(rows or b"")[:300], required=(fresh[key] or b"")[:300],
+                              replay={"map_history": True, "dir": base, "step": step, "view": view, "gplus": gplus})
+    finally:
+        tree.close()
+        pyg.fresh_process_state()
+
+
 def replay(data):
     rp = data["violation"]["replay"]
+    if rp.get("map_history"):
+        r = Result()
+        map_histories(None, r)
+        print(r.violations[:3])
+        return 0
     tree = pyg.Tree()
     try:
         cfg = pyg.make_config(tree.root, **{"handlers.dir.DirHandler|cachetime": "0"})
